@@ -249,6 +249,55 @@ def escape_case(args):
         sc.close()
 
 
+def stale_audit_case(args):
+    """history: a workflow tags an intermediate file and completes; the data files are deleted to have them re-made but their
+    audit files stay behind; the workflow is run again with another tag key: the new records carry the new tag only --
+    nothing of a stale audit file may leak into the record of a newly produced file"""
+    seed, i = args
+    rng = random.Random(seed * 393342811 + i)
+    L = rng.randint(1, 3)
+    def program(key):
+        sp = t3.Spec(maxtasks=rng.choice([1, 2, 3]), bufsize=128)
+        paths = ["st%d.txt" % j for j in range(L)]
+        for p in paths:
+            sp.files[p] = p + "\n"
+        s = sp.src("src", paths)
+        a = sp.proc(t3.RawProc("copy", "cat {i:a} > {o:o}", ins=[("a", [(s, "out")])], outs=[("o", "{i:a}.copy")]))
+        tg = sp.raw("COMP maptags %s %s %d %s" % (hx("tagger"), hx(key), a, hx("o")))
+        sp.proc(t3.RawProc("upper", "tr a-z A-Z < {i:a} > {o:o}", ins=[("a", [(tg, "out")])], outs=[("o", "{i:a}.upper")]))
+        return sp, paths
+    st = rng.getstate()
+    sp1, paths = program("batch")
+    rng.setstate(st)
+    sp2, _ = program("group")
+    sc = t3.Scratch()
+    try:
+        sc.plant(sp1.files)
+        r1 = t3.run_impl(sc, sp1, timeout=60)
+        problems = []
+        if r1["rc"] != 0:
+            problems.append(("unexpected-failure", r1["stderr"][-200:]))
+        else:
+            for p in paths:
+                for f in (p + ".copy", p + ".copy.upper"):
+                    os.remove(os.path.join(sc.work, f))
+            r2 = t3.run_impl(sc, sp2, timeout=60)
+            if r2["rc"] != 0:
+                problems.append(("rerun-fails", "outputs deleted (audit files left), run again with another tag key: exit %s: %s" % (r2["rc"], r2["stderr"][-200:])))
+            else:
+                for p in paths:
+                    want = {"group": p + ".copy"}
+                    for f, pick in ((p + ".copy", lambda r: r), (p + ".copy.upper", lambda r: r), (p + ".copy.upper", lambda r: (r.get("Upstream") or {}).get(p + ".copy") or {})):
+                        v = r2["fs"].get(f + ".audit.json")
+                        rec = pick(json.loads(v[1])) if v else {}
+                        if (rec.get("Tags") or {}) != want:
+                            problems.append(("stale-tags", "the record of the newly produced %r (or its upstream entry) has tags %s, the run attached %s (a stale audit file of the deleted file carried batch=...)" % (f, rec.get("Tags"), want)))
+                            break
+        return {"spec": sp2.text(), "bufsize": 128, "problems": problems[:3], "known": [], "joined": False, "records": 2 * L, "ntasks": 2 * L, "rc": r1["rc"], "stderr": r1["stderr"][-200:], "yield": None, "wall": r1["wall"], "shape": 11}
+    finally:
+        sc.close()
+
+
 def run(rep, tier, seed):
     proved = vlib.prove(rep, MODULE, THEOREMS)
     ok, msg = vlib.build_ocaml()
@@ -266,6 +315,7 @@ def run(rep, tier, seed):
             ccases += [((sp, m), pt) for pt in pts]
     results += t3.run_many(crash_case, ccases)
     results += t3.run_many(memory_tags_case, [(seed, i) for i in range(n // 8)])
+    results += t3.run_many(stale_audit_case, [(seed, i) for i in range(n // 10)])
     results += t3.run_many(escape_case, [(seed, i) for i in range(n // 4)])
     results += t3.run_many(ks.ks_case, [(seed, i, ("audit",)) for i in range(n // 6)])
     kf = vlib.known_findings("C10")
